@@ -56,7 +56,17 @@ func checkC09(c c09Case) (Outcome, error) {
 	}
 	out.NonTrivial = c.Offset >= sample || (c.Workflow == "single" && c.Offset > 0)
 	// stream content: PRNG bytes; more than required so that a transient failure can be followed by data
-	data := sampleBytes(c.Seed, total+sample)
+	var data []byte
+	if c.Workflow == "single" {
+		data = sampleBytes(c.Seed, total+sample)
+	} else {
+		// samples that pass every item (from the pool): if the workflow overlooked the failure it would answer (true, nil)
+		p := getPool(sample)
+		r0 := gen.NewRng(c.Seed)
+		for len(data) < total+sample {
+			data = append(data, sampleBytes(p.Entries[p.allPass[r0.Intn(len(p.allPass))]].Seed, sample)...)
+		}
+	}
 	r := gen.NewReader(data)
 	r.Fault, r.Kind, r.Delays = c.Offset, c.Kind, c.Delays
 	if c.Procs > 0 {
